@@ -1140,6 +1140,56 @@ def run_real(case) -> CaseResult:
                   'sparse': case['sparse']}
             fi = case['file']
 
+            if case.get('linked'):
+                # the source sits in a directory next to symbolic links to
+                # it; the directory (or a glob matching a link) is
+                # transferred with follow_symlinks=True: every link arrives
+                # as a copy of the file
+                base = local if op == 'put' else root
+                dbase = root if op != 'get' else local
+                os.makedirs(os.path.join(base, 'tree', 'sub'))
+                content, holes = make_real_file(
+                    os.path.join(base, 'tree', 'data'), fi)
+                os.symlink('data', os.path.join(base, 'tree', 'link'))
+                os.symlink('../data', os.path.join(base, 'tree', 'sub',
+                                                   'alias-with-longer-name'))
+                kw['follow_symlinks'] = True
+                labels.add('linked:' + case['linked'])
+                fn = {'get': sftp.get, 'put': sftp.put, 'copy': sftp.copy}
+                mfn = {'get': sftp.mget, 'put': sftp.mput,
+                       'copy': sftp.mcopy}
+                spath = os.path.join(local, 'tree') if op == 'put' else 'tree'
+                dpath = os.path.join(local, 'out') if op == 'get' else 'out'
+                os.mkdir(os.path.join(dbase, 'out'))
+
+                if case['linked'] == 'recurse':
+                    coro = fn[op](spath, dpath, recurse=True, **kw)
+                    expect = ['tree/data', 'tree/link',
+                              'tree/sub/alias-with-longer-name']
+                else:
+                    coro = mfn[op](spath + '/l*', dpath, **kw)
+                    expect = ['link']
+
+                try:
+                    pair.h.run(coro)
+                except DOCUMENTED as exc:
+                    raise Violation('spurious-error', '%s (links followed) '
+                                    'raised %r on a healthy server' %
+                                    (op, exc), 'spurious-error:linked-' +
+                                    op) from None
+                except memwire.Stuck:
+                    raise Violation('hang', '%s never completed' % op,
+                                    'hang:linked-' + op) from None
+
+                for rel in expect:
+                    check_bytes(read_local(os.path.join(dbase, 'out', rel)),
+                                content, 'real-server %s of a followed link '
+                                '(%s)' % (op, rel),
+                                'data-mismatch:linked-' + op,
+                                [] if holes and case['sparse'] else None)
+
+                return CaseResult(sorted(labels), True)
+
             if op == 'get':
                 src, dst = os.path.join(root, 'src'), \
                     os.path.join(local, 'dst')
@@ -1265,7 +1315,7 @@ def real_strategy(tier: str):
                                [draw(st.integers(0, 1))]
                                for i in range(draw(st.integers(5, 12)))]
 
-            many = draw(st.integers(0, 11 if tier == 'quick' else 7))
+            many = draw(st.integers(0, 3))
 
             if many == 0 and op != 'put':
                 # more data ranges than two of the server's range batches
@@ -1292,8 +1342,13 @@ def real_strategy(tier: str):
                 fi['size'] = draw(pick(
                     [262143, 262144, 262145, 524288, 524289, 600000]))
 
+        big_layout = len(fi.get('pages') or []) >= 100
+
         return {'op': op, 'version': version, 'short': short, 'bs': bs,
-                'mr': mr, 'sparse': draw(st.booleans()), 'file': fi,
+                'mr': mr, 'sparse': True if big_layout else
+                draw(st.booleans()), 'file': fi,
+                'linked': draw(pick([None, None, None, 'recurse', 'mglob']))
+                if len(fi.get('pages') or []) < 100 else None,
                 'ranges_batch': draw(pick([None, None, 1, 2, 3]))
                 if sparse_file and len(fi['pages']) < 100 else None}
 
@@ -1629,7 +1684,8 @@ FAMILIES = [
                              'sparse-holes', 'short-read-continued',
                              'copy-data>256k', 'v3', 'v4', 'v5', 'v6',
                              'ranges-batches>=3',
-                             'ranges-batches>=3:real-batch-size']},
+                             'ranges-batches>=3:real-batch-size',
+                             'linked:recurse', 'linked:mglob']},
            timeout_is_violation=True, case_timeout=120),
     Family('text-file', run_text, strategy=text_strategy,
            budget={'quick': 320, 'thorough': 5000},
